@@ -203,10 +203,10 @@ class chunks(object):
         decChunkMin = int(np.floor((dec - self.decBounds[0]) *
                                    float(self.nDec) /
                                    (self.decBounds[self.nDec]-self.decBounds[0])))
-        if dec == self.decBounds[self.nDec]:
+        if decChunkMin == self.nDec and dec <= self.decBounds[self.nDec]:
             #
-            # A point exactly on the upper boundary (the pole) belongs
-            # to the last slice.
+            # A point on the upper boundary (the pole), or so close to it
+            # that the division above rounds up, belongs to the last slice.
             #
             decChunkMin = self.nDec - 1
         decChunkMax = decChunkMin
@@ -266,7 +266,7 @@ class chunks(object):
         decChunk = int(np.floor((dec - self.decBounds[0]) *
                                 float(self.nDec) /
                                 (self.decBounds[self.nDec]-self.decBounds[0])))
-        if dec == self.decBounds[self.nDec]:
+        if decChunk == self.nDec and dec <= self.decBounds[self.nDec]:
             decChunk = self.nDec - 1
         #
         # Find ra chunk
